@@ -113,6 +113,7 @@ SPEC_M.append(("ledger.hsm2dongle_cmds.ui_heartbeat", "HSM2UIHeartbeat", ["send"
 SPEC_M.append(("ledger.hsm2dongle", "HSM2Dongle", ["get_signer_heartbeat", "get_ui_heartbeat"]))
 SPEC_M.append(("ledger.protocol", "HSM2ProtocolLedger", ["_signer_heartbeat", "_ui_heartbeat"]))
 SPEC_M.append(("ledger.protocol", "HSM2ProtocolLedger", ["_get_blockchain_parameters"]))
+SPEC_M.append(("ledger.protocol", "HSM2ProtocolLedger", ["__internal_handle_request"]))
 # instance attributes that __init__ sets to fixed objects of another class (command classes)
 INSTANCE_ALIAS = {
     ("HSM2SignerHeartbeat", "Offset"): ("ledger.hsm2dongle", "HSM2Dongle", "OFF"),
@@ -274,10 +275,24 @@ class Gen:
         self._translate(key, coqname, m, cls, fd, has_self=True)
         return coqname
 
-    def _translate(self, key, coqname, m, cls, fd, has_self):
+    def method_st(self, cls, mname):
+        """The variant of a method that assigns through a parameter which also RETURNS the final value of
+        each such parameter: result = [returned value; parameter ...] (explicit state threading instead of
+        Python's aliasing).  Only for methods already known to mutate."""
+        fn = self.method(cls, mname)
+        need(self.mutates.get(fn), "%s does not assign through a parameter" % fn)
+        key = (cls.__module__, cls.__name__, mname, "st")
+        if key in self.done:
+            return self.done[key]
+        _, fd, m = find_method(cls)[mname]
+        self._translate(key, fn + "__st", m, cls, fd, has_self=True, st=sorted({i for i, _ in self.mutates[fn]}))
+        return fn + "__st"
+
+    def _translate(self, key, coqname, m, cls, fd, has_self, st=None):
         need(key not in self.in_progress, "recursion through %s" % (key,))
         self.in_progress.add(key)
         t = FuncTr(self, m, cls, fd, has_self)
+        t.st = st
         body = t.run()
         params = " ".join("(%s : pv)" % p for p in t.coq_params)
         t.extra_params.sort(key=EXTRA_ORDER.index)
@@ -409,6 +424,10 @@ class FuncTr:
                 and isinstance(body[0].value.value, str):
             body = body[1:]
         end = "POk %s" % self.v(self.selfname) if self.is_init else "POk VNone"
+        if getattr(self, "st", None):
+            outs = "; ".join(self.v(self.params[i]) for i in self.st)
+            wrap = lambda e: "pbind (%s) (fun rv_ => POk (VList [rv_; %s]))" % (e, outs)
+            return self.stmts(body, wrap(end), wrap)
         return self.stmts(body, end, lambda e: e)
 
     # ----- statements.  k: Gallina text of what follows; ret: wraps the text of a returned value -----
@@ -505,6 +524,29 @@ class FuncTr:
             lst = self.v(value.func.value.id)
             return ("pbind (py_list_pop %s) (fun p_ => match p_ with VList [%s; %s] =>\n%s\n | _ => PStuck end)"
                     % (lst, self.v(tgt.id), lst, self.stmts(rest, k, ret)))
+        if isinstance(tgt, ast.Name) and getattr(self, "st", None) and isinstance(value, ast.Call) \
+                and isinstance(value.func, ast.Attribute) and isinstance(value.func.value, ast.Name) \
+                and value.func.value.id == self.selfname and self.cls is not None \
+                and value.func.attr in find_method(self.cls) and not self.M:
+            fn0 = self.gen.method(self.cls, value.func.attr)
+            mut = sorted({i for i, _ in self.gen.mutates.get(fn0, ())})
+            if mut:
+                fd2 = find_method(self.cls)[value.func.attr][1]
+                args = self.resolve_callee_args(fd2, value, True)
+                need(all(isinstance(args[i - 1], ast.Name) for i in mut), "argument mutated by %s is not a plain variable" % fn0, st)
+                fn = self.gen.method_st(self.cls, value.func.attr)
+                outs = "; ".join(self.v(args[i - 1].id) for i in mut)
+                return self.binds(args, lambda a: "pbind (%s %s %s) (fun p_ => match p_ with VList [%s; %s] =>\n%s\n | _ => PStuck end)" % (
+                    fn, self.v(self.selfname), " ".join(a), self.v(tgt.id), outs, self.stmts(rest, k, ret)))
+        if isinstance(tgt, ast.Name) and self.M and isinstance(value, ast.Call) and isinstance(value.func, ast.Subscript) \
+                and isinstance(value.func.value, ast.Attribute) and isinstance(value.func.value.value, ast.Name) \
+                and value.func.value.value.id == self.selfname and value.func.value.attr == "_validation_mappings" \
+                and len(value.args) == 1 and isinstance(value.args[0], ast.Name):
+            # the validators replace items of the request in place: the handler that follows must see them
+            mp = self.pure_mappings()
+            rq = self.v(value.args[0].id)
+            return self.binds([value.func.slice], lambda a: "pbind (lift (%s %s %s %s)) (fun p_ => match p_ with VList [%s; %s] =>\n%s\n | _ => PStuck end)" % (
+                mp["dispatch_st"], self.v(self.selfname), a[0], rq, self.v(tgt.id), rq, self.stmts(rest, k, ret)))
         is_opaque = self.is_opaque_expr(value)
         if isinstance(tgt, ast.Name):
             if is_opaque:
@@ -1126,6 +1168,8 @@ class FuncTr:
 
     def special_attr(self, attr):
         if attr == "_known_commands":
+            if self.M:
+                return "POk %s" % self.pure_mappings()["known"]
             return "POk %s" % self.mappings()["known"]
         return None
 
@@ -1183,9 +1227,94 @@ class FuncTr:
         self.gen.emit_raw(disp, (
             "Definition %s (self_ command_ request_ : pv) : pr pv :=\n  match command_ with\n"
             "  | VStr c_ => %s\n  | VList _ | VDict _ => PRaise TypeError\n  | VObj _ _ => PStuck\n  | _ => PRaise KeyError\n  end." % (disp, body)))
-        res = {"known": known, "dispatch": disp, "ops": [k_ for k_, _ in ops], "validators": vfns}
+        res = {"known": known, "dispatch": disp, "ops": [k_ for k_, _ in ops], "validators": vfns,
+               "op_methods": [(k_, vx.attr) for k_, vx in ops
+                              if isinstance(vx, ast.Attribute) and isinstance(vx.value, ast.Name) and vx.value.id == "self"],
+               "arms": arms, "val_attrs": [(kval, vx.attr if isinstance(vx, ast.Attribute) else None) for kval, vx in vals]}
+        need(len(res["op_methods"]) == len(ops), "operation that is not a method of self", fd)
         cache[self.cls] = res
         return res
+
+    def mappings_st(self):
+        """the validation dispatch in its state-threading variant: [result; request as the validator left it]"""
+        mp = self.mappings()
+        if "dispatch_st" in mp:
+            return mp
+        cname = self.cls.__name__
+        arms = []
+        for (kval, call), (_, attr) in zip(mp["arms"], mp["val_attrs"]):
+            fn0 = self.gen.method(self.cls, attr) if attr else None
+            if fn0 and self.gen.mutates.get(fn0):
+                need({i for i, _ in self.gen.mutates[fn0]} == {1}, "validator %s assigns through something other than the request" % attr)
+                arms.append((kval, "%s self_ request_" % self.gen.method_st(self.cls, attr)))
+            else:
+                arms.append((kval, "pbind (%s) (fun r_ => POk (VList [r_; request_]))" % call))
+        disp = "validation_dispatch_st_%s" % cname
+        body = "PRaise KeyError"
+        for kval, call in reversed(arms):
+            body = "if str_eqb c_ %s then %s else\n    %s" % (coq_str_val(kval), call, body)
+        self.gen.emit_raw(disp, (
+            "Definition %s (self_ command_ request_ : pv) : pr pv :=\n  match command_ with\n"
+            "  | VStr c_ => %s\n  | VList _ | VDict _ => PRaise TypeError\n  | VObj _ _ => PStuck\n  | _ => PRaise KeyError\n  end." % (disp, body)))
+        mp["dispatch_st"] = disp
+        return mp
+
+    def base_mappings_cls(self):
+        """the class that defines _init_mappings, after checking that the concrete class changes neither the
+        constants its methods read nor the validators"""
+        meths = find_method(self.cls)
+        need("_init_mappings" in meths, "no _init_mappings", None)
+        dcls = meths["_init_mappings"][0]
+        dm = find_method(dcls)
+        for name, (c_, fd2, _m) in dm.items():
+            if name.startswith("_validate_") or name == "_init_mappings":
+                need(meths[name][0] is c_, "%s overridden in %s" % (name, self.cls.__name__), fd2)
+                for n_ in ast.walk(fd2):
+                    if isinstance(n_, ast.Attribute) and isinstance(n_.value, ast.Name) and n_.value.id == "self" \
+                            and n_.attr not in dm:
+                        a1 = inspect.getattr_static(self.cls, n_.attr, NOTCONST)
+                        a2 = inspect.getattr_static(dcls, n_.attr, NOTCONST)
+                        need(a1 is a2 or a1 == a2, "constant %s differs between %s and %s" % (
+                            n_.attr, self.cls.__name__, dcls.__name__), fd2)
+        return dcls, meths["_init_mappings"][2]
+
+    def pure_mappings(self):
+        dcls, dm = self.base_mappings_cls()
+        sub = FuncTr(self.gen.pure, dm, dcls, find_method(dcls)["_init_mappings"][1], True)
+        return sub.mappings_st()
+
+    def ops_dispatch(self):
+        """self._mappings[command](request) for the concrete class: the handlers as translated by this backend"""
+        mp = self.pure_mappings()
+        cname = self.cls.__name__
+        name = "operation_dispatch_%s" % cname
+        cache = self.gen.__dict__.setdefault("opscache", {})
+        if name in cache:
+            for p_ in cache[name]:
+                if p_ not in self.extra_params:
+                    self.extra_params.append(p_)
+            return name
+        extras, arms = [], []
+        for kval, attr in mp["op_methods"]:
+            fn = self.gen.method(self.cls, attr)
+            ex = self.gen.extra.get(fn, [])
+            for p_ in ex:
+                if p_ not in extras:
+                    extras.append(p_)
+            arms.append((kval, "%s%s self_ request_" % (fn, "".join(" " + x for x in ex))))
+        extras.sort(key=EXTRA_ORDER.index)
+        body = "PRaise KeyError"
+        for kval, call in reversed(arms):
+            body = "if str_eqb c_ %s then %s else\n    %s" % (coq_str_val(kval), call, body)
+        self.gen.emit_raw(name, (
+            "Definition %s%s (self_ command_ request_ : pv) : pm pv :=\n  match command_ with\n"
+            "  | VStr c_ => %s\n  | VList _ | VDict _ => PRaise TypeError\n  | VObj _ _ => PStuck\n  | _ => PRaise KeyError\n  end." % (
+                name, "".join(" (%s : %s)" % (p_, EXTRA_TYPES[p_]) for p_ in extras), body)))
+        cache[name] = extras
+        for p_ in extras:
+            if p_ not in self.extra_params:
+                self.extra_params.append(p_)
+        return name
 
     def log_only_param(self, fd, pname):
         """True if parameter pname of fd is used only inside log calls and raise statements"""
@@ -1468,6 +1597,11 @@ class FuncTr:
                     self.note_call(vfn, [e.args[0]], offset=1)
                 return self.binds([f.slice, e.args[0]], lambda a: "%s %s %s %s" % (
                     mp["dispatch"], self.v(self.selfname), a[0], a[1]))
+            if f.value.attr == "_mappings" and self.M:
+                name = self.ops_dispatch()
+                ex = "".join(" " + x for x in sorted(self.gen.opscache[name], key=EXTRA_ORDER.index))
+                return self.binds([f.slice, e.args[0]], lambda a: "%s%s %s %s %s" % (
+                    name, ex, self.v(self.selfname), a[0], a[1]))
             if f.value.attr == "_mappings":
                 self.mappings()
                 if "op_" not in self.extra_params:
